@@ -217,6 +217,11 @@ class Importance(CellModifierInput):
                     continue
                 # the values, with shortcuts expanded
                 values = list(self._particle_importances[particle]["data"])
+                if len(values) > len(self._problem.cells):
+                    raise MalformedInputError(
+                        self._input,
+                        f"The importance input for {particle} gives {len(values)} values for {len(self._problem.cells)} cells",
+                    )
                 for i, cell in enumerate(self._problem.cells):
                     if i >= len(values):
                         raise MalformedInputError(
